@@ -42,7 +42,7 @@ CLAIMED = {
                      'every operation the bundle bytes are parsed by an independent reader written from the format '
                      'description (index entries empty or pointing at complete, size-matching, non-overlapping records) and '
                      'compared with a dict model; the real defrag_compact_cache then runs with seeded thresholds: same bytes '
-                     'for every address, no file grew, still valid. Concurrent configuration: 2-4 writer processes '
+                     'for every address, no file grew, still valid. Concurrent configuration: 2-4 writers (processes, or threads sharing one cache object) '
                      'scheduled at file-system-call granularity (incl. 3-4 writers contending for one bundle with lock-retry timers '
                      'firing while the holder runs), checked at quiescence. Sequential histories also meet I/O errors (one-shot or sticky) inside '
                      'a store/remove - the bundle must stay structurally valid - and dry-run defragmentations that must not change a byte.',
@@ -81,7 +81,7 @@ CLAIMED = {
                      'file cache (also with symlinked single-colour tiles) on SimFS or per-level sqlite cache, plus two or three concurrent requests under a refresh rule; oracle from the timestamps actually recorded: stale tile => '
                      'upstream asked, tile rewritten with the new fetch generation; fresh tile => no upstream call, same '
                      'generation; a failed refresh never removes or changes the stored tile; a tile written during a request is recorded with '
-                     'the time of that write even when the source reports older data; single stored tiles may be aged (mixed-age meta tiles); the seeding tile manager carries the cache\'s own refresh_before; same-second band unspecified. Cases run in seeded '
+                     'the time of that write even when the source reports older data; single stored tiles may be aged (mixed-age meta tiles); a disk error may hit the store of a refreshed tile (the old tile must survive); the seeding tile manager carries the cache\'s own refresh_before; same-second band unspecified. Cases run in seeded '
                      'fixed-offset local time zones.',
                 note='trusted: simulated clock behind time.time/time.sleep/datetime.now of util/times.py, stub upstream, SimFS mtimes; '
                      'sqlite backend outside the simulator',
@@ -94,14 +94,14 @@ CLAIMED = {
                      'HTTPClient.open; oracle: identical validators and body while the fetch generation in the pixels is '
                      'unchanged, 304 + empty body for the current ETag, every 304 justified (also for the previous copy\'s validators, pre-1970 '
                      'dates and requests that themselves trigger the refresh), fill images carry no-store, get no 304 and are never '
-                     'served from the cache. A cacheable 404 mapping of the same colour may sit next to the uncached 500 one (the oracle replays what is stored per tile); race cases rewrite a tile through the cache API while it is served (a response\'s ETag may equal the stored tile\'s only if the bodies agree). Dates are written and read by the check\'s own code; cases run in seeded fixed-offset local time zones.',
+                     'served from the cache. The cache may sit on top of an inner cache with a larger tile size (fill images must stay uncacheable through the crop). A cacheable 404 mapping of the same colour may sit next to the uncached 500 one (the oracle replays what is stored per tile); race cases rewrite a tile through the cache API while it is served (a response\'s ETag may equal the stored tile\'s only if the bodies agree). Dates are written and read by the check\'s own code; cases run in seeded fixed-offset local time zones.',
                 note='trusted: simulated HTTP transport and clock; sqlite backend outside the simulator; creating responses are '
                      'excluded from the equality clause',
                 technique='deterministic simulation: full WSGI stack over simulated clock, file system and upstream with HTTP-500 injection; model-based history checking'),
     'C12': dict(level='exploration', ref='DESIGN.md 6.6',
                 text='seeded cache contents (tiles stored at seeded simulated times, some in the same second; foreign objects: a '
                      'second cache, lock files, stray files) x one cleanup task (level list / range / open and zero-ended ranges / all; remove_all, remove_before as '
-                     'absolute time / relative age / file mtime, default; full extent, bbox (grid SRS or EPSG:4326), polygon or multi-part coverage; seeded fixed-offset local time zone and file time-stamp granularity; a deep variant places tiles around the bundle borders of levels 8/9; factor-2, sqrt2 and custom-resolution grids) built by the real '
+                     'absolute time / relative age / file mtime, default; full extent, bbox (grid SRS or EPSG:4326), polygon or multi-part coverage; seeded fixed-offset local time zone and file time-stamp granularity; a deep variant places tiles around the bundle borders of levels 8/9 of a twelve-level pyramid; an earlier cleanup task of the same run may precede the task under test; factor-2, sqrt2 and custom-resolution grids) built by the real '
                      'CleanupConfiguration and executed by the real cleanup() - all three strategies, with the real '
                      'TileCleanupWorker threads under the scheduler - on file (6 layouts, linked single-colour tiles, cache-level refresh_before), compact v1/v2 (SimFS), sqlite, mbtiles, '
                      'geopackage (tmpfs); oracle from recorded timestamps and independent geometry: must-remove / must-keep / '
